@@ -120,6 +120,8 @@ type StoreCase struct {
 	Huge       int `json:",omitempty"`
 	HugeOthers int `json:",omitempty"`
 	HugeOther  int `json:",omitempty"`
+	// Lost, when set, makes the case a "lost search replace" experiment on the cosmosdb arm (c15_lostsearch_test.go).
+	Lost *LostSearch `json:",omitempty"`
 }
 
 // c15HugeSizes are the store sizes of the huge class: just above 1000 rows, and well above.
@@ -138,6 +140,10 @@ var submitPool = []int64{1_600_000_000_000_000_000, 1_600_000_000_000_000_001, 1
 
 func genStoreCase(t *rapid.T) StoreCase {
 	c := StoreCase{Arm: genArm(t), Seed: rapid.Uint64().Draw(t, "seed")}
+	if c.Arm == store.ArmCosmosFake && store.Uniform(t, 4, "lostsearch") == 3 {
+		c.Lost = genLostSearch(t)
+		return c
+	}
 	n := rapid.IntRange(0, 8).Draw(t, "nplans")
 	for i := 0; i < n; i++ {
 		l := fmt.Sprintf("p%d", i)
@@ -883,6 +889,9 @@ func (r *c15run) buildHuge(ctx context.Context, c StoreCase) bool {
 }
 
 func checkStoreCase(c StoreCase) (res vprop.Result) {
+	if c.Lost != nil {
+		return checkLostSearchC15(c.Lost)
+	}
 	arm := c.Arm
 	defer func() { res.Labels = dedupe(res.Labels) }() // labels are counted once per case
 	res.Label("arm:" + arm)
